@@ -781,32 +781,28 @@ fn invariants(planes: &Airplanes, model: &Model, fails: &mut Vec<Fail>) {
                     _ => hist.push((*h, *must)),
                 }
             }
-            // actual must be a subsequence of history containing every mandatory entry
-            let mut hi = 0;
-            let mut ok = true;
-            for a in &actual {
-                let mut found = false;
-                while hi < hist.len() {
-                    let (h, must) = hist[hi];
-                    hi += 1;
-                    if pos_eq(h, *a) {
-                        found = true;
-                        break;
-                    } else if must {
-                        ok = false;
-                        break;
+            // actual must be a subsequence of the history that contains every mandatory entry
+            // (dynamic programme: reach[j] = the first i history entries can be explained with j actual entries)
+            let (n, m) = (hist.len(), actual.len());
+            let mut reach = vec![false; m + 1];
+            reach[0] = true;
+            for i in 0..n {
+                let (h, must) = hist[i];
+                let mut next = vec![false; m + 1];
+                for j in 0..=m {
+                    if !reach[j] {
+                        continue;
+                    }
+                    if !must {
+                        next[j] = true; // an optional entry may be absent
+                    }
+                    if j < m && pos_eq(h, actual[j]) {
+                        next[j + 1] = true;
                     }
                 }
-                if !found {
-                    ok = false;
-                }
-                if !ok {
-                    break;
-                }
+                reach = next;
             }
-            if ok && hist[hi..].iter().any(|(_, must)| *must) {
-                ok = false;
-            }
+            let ok = reach[m];
             if !ok {
                 fails.push(("C14/track".into(), format!("{key}: positioned track entries {actual:?} are not the earlier publications {:?} (position, mandatory)", rec.history)));
             }
